@@ -370,10 +370,23 @@ def check_stats(cur):
                 ends_here = [r for r in rejected if r['time'] + r['post']['dt'] == t and acc_here and r['pre']['riar'] > acc_here[0]['pre']['riar']]
                 if not ends_here:
                     explained_missing = False
+            # General form of the same root cause (fallback after the three specific variants): at every time where the filtered
+            # records differ from the accepted ones there is an EARLIER rejected attempt, keyed at that time by its start or
+            # its end, whose restart count is not lower than the accepted attempt's - the count does not order the attempts,
+            # so the filter cannot single out the latest one
+            bad_times = {t for t, _ in extra} | {t for t, _ in missing}
+            explained_general = bool(bad_times)
+            for t in bad_times:
+                acc_here = [a for a in acc if key_time(a) == t]
+                older = [r for r in rejected if (r['time'] == t or r['time'] + r['post']['dt'] == t) and acc_here and r['block'] < acc_here[0]['block'] and r['pre']['riar'] >= acc_here[0]['pre']['riar']]
+                if not older:
+                    explained_general = False
             if explained_missing:
                 cur.viol.append(({'kind': 'filtered_records', 'cause': 'a rejected attempt with a higher restart count ends at the time an accepted attempt with a lower restart count starts or ends'}, {'type': typ, 'missing_times': [t for t, _ in missing], 'cfg': cfg_key_small(cur.cfg)}))
             elif explained:
                 cur.viol.append(({'kind': 'filtered_records', 'cause': f'rejected and accepted attempt {when} at the same time with equal restart count in different slots'}, {'type': typ, 'extra_times': [t for t, _ in extra], 'cfg': cfg_key_small(cur.cfg)}))
+            elif explained_general:
+                cur.viol.append(({'kind': 'filtered_records', 'cause': 'an earlier rejected attempt keyed at the same time carries a restart count that is not lower than the accepted attempt\'s'}, {'type': typ, 'times': sorted(bad_times), 'cfg': cfg_key_small(cur.cfg)}))
             else:
                 cur.v(
                     'filtered_records',
@@ -420,6 +433,8 @@ def check_stats(cur):
             shadowed = [a for a in acc if any(r['time'] + r['post']['dt'] == a['time'] and r['pre']['riar'] > a['pre']['riar'] for r in rejected)]
             if shadowed and exp - len(got) == sum(a['niter_cb'] for a in shadowed):
                 cur.viol.append(({'kind': 'filtered_records', 'cause': 'a rejected attempt with a higher restart count ends at the time an accepted attempt with a lower restart count starts or ends'}, {'type': 'residual_post_iteration', 'missing_times': sorted({a['time'] for a in shadowed}), 'cfg': cfg_key_small(cur.cfg)}))
+            elif any((r['time'] == a['time'] or r['time'] + r['post']['dt'] == a['time']) and r['block'] < a['block'] and r['pre']['riar'] >= a['pre']['riar'] for a in acc for r in rejected) and not (twins and len(got) - exp == sum(r['niter_cb'] for r in twins)):
+                cur.viol.append(({'kind': 'filtered_records', 'cause': 'an earlier rejected attempt keyed at the same time carries a restart count that is not lower than the accepted attempt\'s'}, {'type': 'residual_post_iteration', 'n_got': len(got), 'n_expected': exp, 'cfg': cfg_key_small(cur.cfg)}))
             elif twins and len(got) - exp == sum(r['niter_cb'] for r in twins):
                 cur.viol.append(({'kind': 'filtered_records', 'cause': 'rejected and accepted attempt start at the same time with equal restart count in different slots'}, {'type': 'residual_post_iteration', 'extra_times': sorted({r['time'] for r in twins}), 'cfg': cfg_key_small(cur.cfg)}))
             else:
